@@ -19,7 +19,7 @@
 #include <string.h>
 
 #define VX_BIG 1000000000L
-struct fvt { size_t sizeof_T; };
+struct fvt { size_t sizeof_T; size_t alignof_T; };
 struct slot { bool cons; const struct fvt *type; int payload; };
 struct blk { bool alloc; const struct fvt *for_type; struct slot s; };
 
@@ -35,6 +35,14 @@ struct function_base
 };
 /* the argument of basic_function::assign(F&& f): a callable of type `type` (or a null function pointer / empty pika function) */
 struct callable { const struct fvt *type; int payload; bool is_null; };
+
+/* the placement policy of vtable::allocate<T> (its `if` condition, lifted): true = heap block, false = the given storage.
+ * The representation invariant below is stated relative to it, so that it describes exactly the states pika creates. */
+#define VX_SIZEOF(T) ((T)->sizeof_T)
+#define VX_ALIGNOF(T) ((T)->alignof_T)
+//@LIFT heap_policy
+/* alignment every wrapper guarantees for its embedded storage: `storage` sits at a multiple of alignof(function_base) */
+#define VX_STORAGE_ALIGN (offsetof(struct function_base, storage) % _Alignof(struct function_base) == 0 ? _Alignof(struct function_base) : 1)
 
 static struct fvt g_vt_empty, g_vt[2];
 static struct blk g_blk[3];            /* [0],[1] may exist before the operation, [2] is what the operation's `new` returns */
@@ -53,9 +61,9 @@ static struct slot g_bad_slot;
 #define IS_BLK(p) ((p) == (void *) &g_blk[0] || (p) == (void *) &g_blk[1] || (p) == (void *) &g_blk[2])
 #define AS_BLK(p) ((struct blk *) (p))
 #define F_EMPTY(f) ((f)->object == NULL && (f)->vptr == &g_vt_empty)
-#define F_EMB(f) ((f)->object == (void *) (f)->storage && IS_TYPE((f)->vptr) && (f)->vptr->sizeof_T <= function_storage_size && \
+#define F_EMB(f) ((f)->object == (void *) (f)->storage && IS_TYPE((f)->vptr) && !VX_HEAP_POLICY((f)->vptr, function_storage_size) && \
                   (f)->vx_emb.cons && (f)->vx_emb.type == (f)->vptr)
-#define F_HEAP(f) (IS_BLK((f)->object) && IS_TYPE((f)->vptr) && (f)->vptr->sizeof_T > function_storage_size && \
+#define F_HEAP(f) (IS_BLK((f)->object) && IS_TYPE((f)->vptr) && VX_HEAP_POLICY((f)->vptr, function_storage_size) && \
                    AS_BLK((f)->object)->alloc && AS_BLK((f)->object)->for_type == (f)->vptr && \
                    AS_BLK((f)->object)->s.cons && AS_BLK((f)->object)->s.type == (f)->vptr)
 /* representation invariant (DESIGN C18): object == NULL <=> vptr == the empty vtable; an embedded object lives in the
@@ -69,7 +77,9 @@ static struct slot g_bad_slot;
 #define F_FOREIGN2(a, b) (g_live - F_OWNS(a) - ((b) != (a) ? F_OWNS(b) : 0))
 #define F_FBLOCKS1(a) (g_blocks - F_HOWNS(a))
 #define F_FBLOCKS2(a, b) (g_blocks - F_HOWNS(a) - ((b) != (a) ? F_HOWNS(b) : 0))
-#define FB_WORLD (g_vt_empty.sizeof_T == 1 && g_vt[0].sizeof_T >= 1 && g_vt[1].sizeof_T >= 1 && !g_blk[2].alloc && !g_newed && \
+#define POW2(a) ((a) == 1 || (a) == 2 || (a) == 4 || (a) == 8 || (a) == 16 || (a) == 32 || (a) == 64)
+#define FB_WORLD (g_vt_empty.sizeof_T == 1 && g_vt_empty.alignof_T == 1 && g_vt[0].sizeof_T >= 1 && g_vt[1].sizeof_T >= 1 && \
+                  POW2(g_vt[0].alignof_T) && POW2(g_vt[1].alignof_T) && !g_blk[2].alloc && !g_newed && \
                   vx_exc == 0 && g_live >= 2 && g_live <= VX_BIG && g_blocks >= 2 && g_blocks <= VX_BIG && g_invocations == 0)
 #define GHOST_FRAME g_blk, g_live, g_blocks, g_newed, vx_exc, g_invocations, g_inv_payload, g_inv_arg, g_inv_result
 #define FB_FIELDS(f) (f)->vptr, (f)->object, (f)->storage, (f)->vx_emb
@@ -172,8 +182,9 @@ static void vx_swap_ghost(void *a, void *b)
 }
 #define VX_SWAP(a, b) do { __typeof__(a) *vx_pa = &(a), *vx_pb = &(b); __typeof__(a) vx_t; \
     if (vx_pa != vx_pb) { vx_swap_ghost(vx_pa, vx_pb); memcpy(&vx_t, vx_pa, sizeof(a)); memcpy(vx_pa, vx_pb, sizeof(a)); memcpy(vx_pb, &vx_t, sizeof(a)); } } while (0)
+/* enum class pika::error (errors/error.hpp) */
+//@LIFT errors
 /* pika::throw_exception(pika::error::bad_function_call, ...) */
-#define pika_error_bad_function_call 7
 static void vx_throw(int code)
 {
   VX_ASSERT(code == pika_error_bad_function_call, "the defined error of an empty function is bad_function_call");
@@ -198,9 +209,29 @@ static const struct fvt *get_vtable(const struct fvt *T) { return T; }
 static bool is_empty_function(struct callable f) { return f.is_null; }
 
 /* ---- the entries of a vtable: real templates, T = the table ------------------------------------------------------- */
-#define VX_SIZEOF(T) ((T)->sizeof_T)
+#ifndef U_ALLOCATE
 static void *vt_allocate(const struct fvt *T, void *storage, size_t storage_size)                /* vtable::allocate<T> */
 //@LIFT vt_allocate
+#else
+/* vtable::allocate<T>(storage, storage_size) as called by function_base / basic_function with a wrapper's embedded storage:
+ * a callable is placed in the embedded storage only if it FITS there and the storage is SUITABLY ALIGNED for it (otherwise
+ * constructing it there is undefined behaviour: the wrapped callable would not behave like the original); else it gets a
+ * heap block of its own (aligned_storage_helper<T> is alignas(T)) */
+#ifdef VX_NO_OVERALIGNED   /* input class of the known finding excluded: no over-aligned callable types */
+#define VX_ALIGN_CLASS(T) ((T)->alignof_T <= _Alignof(void *))
+#else
+#define VX_ALIGN_CLASS(T) 1
+#endif
+//@FUNC_IF U_ALLOCATE
+void *vt_allocate(const struct fvt *T, void *storage, size_t storage_size)
+__CPROVER_requires(FB_WORLD && IS_TYPE(T) && storage == (void *) g_fb[0]->storage && storage_size == function_storage_size)
+__CPROVER_requires(VX_ALIGN_CLASS(T))
+__CPROVER_ensures(__CPROVER_return_value == storage ==> (T->sizeof_T <= storage_size && T->alignof_T <= VX_STORAGE_ALIGN))
+__CPROVER_ensures(__CPROVER_return_value != storage ==> (__CPROVER_return_value == (void *) &g_blk[2] && g_blk[2].alloc && g_blk[2].for_type == T && g_blocks == __CPROVER_old(g_blocks) + 1))
+__CPROVER_ensures(g_live == __CPROVER_old(g_live))
+__CPROVER_assigns(g_blk[2], g_blocks, g_newed)
+//@LIFT vt_allocate
+#endif
 static void vt_deallocate_T(const struct fvt *T, void *obj, size_t storage_size, bool destroy)   /* vtable::_deallocate<T> */
 //@LIFT vt_deallocate
 static void *vt_copy_T(const struct fvt *T, void *storage, size_t storage_size, void const *src, bool destroy) /* copyable_vtable::_copy<T> */
@@ -335,11 +366,11 @@ __CPROVER_assigns(FB_FIELDS(self), FB_FIELDS(f), GHOST_FRAME)
 //@FUNC_IF U_OP_ASSIGN_COPY
 void fb_op_assign_copy(struct function_base *self, const struct function_base *other, const struct fvt *empty_vtable)
 __CPROVER_requires(FB_WORLD && FWF(self) && FWF(other) && F_DISJOINT(self, other) && empty_vtable == &g_vt_empty)
-__CPROVER_requires(g_foreign0 == F_FOREIGN2(self, other) && g_pay_other0 == F_PAYLOAD(other) && g_pay_self0 == F_PAYLOAD(self))
+__CPROVER_requires(g_foreign0 == F_FOREIGN2(self, other) && g_fblocks0 == F_FBLOCKS2(self, other) && g_pay_other0 == F_PAYLOAD(other) && g_pay_self0 == F_PAYLOAD(self))
 __CPROVER_ensures(FWF(self) && FWF(other) && F_DISJOINT(self, other))
 __CPROVER_ensures(F_FOREIGN2(self, other) == g_foreign0)
 __CPROVER_ensures(other->vptr == __CPROVER_old(other->vptr) && other->object == __CPROVER_old(other->object))
-__CPROVER_ensures(vx_exc == 0 ==> self->vptr == other->vptr)
+__CPROVER_ensures(vx_exc == 0 ==> (self->vptr == other->vptr && F_FBLOCKS2(self, other) == g_fblocks0))
 __CPROVER_ensures(vx_exc == 0 && F_OWNS(other) == 1 ==> ((self != other ==> self->object != other->object) && F_PAYLOAD(self) == g_pay_other0 && F_PAYLOAD(other) == g_pay_other0))
 __CPROVER_ensures(self == other ==> (vx_exc == 0 && !g_newed && g_live == __CPROVER_old(g_live) && (F_OWNS(self) == 1 ==> F_PAYLOAD(self) == g_pay_self0)))
 __CPROVER_assigns(FB_FIELDS(self), GHOST_FRAME)
@@ -369,8 +400,9 @@ __CPROVER_assigns(FB_FIELDS(self), FB_FIELDS(other), GHOST_FRAME)
  * wrapper stays well-formed and no callable object is leaked */
 //@FUNC_IF U_BF_ASSIGN
 void bf_assign(struct function_base *self, struct callable f)
-__CPROVER_requires(FB_WORLD && FWF(self) && IS_TYPE(f.type) && g_foreign0 == F_FOREIGN1(self))
+__CPROVER_requires(FB_WORLD && FWF(self) && IS_TYPE(f.type) && g_foreign0 == F_FOREIGN1(self) && g_fblocks0 == F_FBLOCKS1(self))
 __CPROVER_ensures(FWF(self) && F_FOREIGN1(self) == g_foreign0)
+__CPROVER_ensures(vx_exc == 0 ==> F_FBLOCKS1(self) == g_fblocks0)
 __CPROVER_ensures(vx_exc == 0 && f.is_null ==> F_EMPTY(self))
 __CPROVER_ensures(vx_exc == 0 && !f.is_null ==> (F_OWNS(self) == 1 && self->vptr == f.type && F_PAYLOAD(self) == f.payload))
 __CPROVER_assigns(FB_FIELDS(self), GHOST_FRAME)
@@ -438,9 +470,9 @@ void harness(void)
   struct function_base a, b;
   g_fb[0] = &a;
   g_fb[1] = &b;
-  g_vt_empty.sizeof_T = 1;
-  g_vt[0].sizeof_T = nondet_size();
-  g_vt[1].sizeof_T = nondet_size();
+  g_vt_empty.sizeof_T = 1; g_vt_empty.alignof_T = 1;
+  g_vt[0].sizeof_T = nondet_size(); g_vt[0].alignof_T = nondet_size();
+  g_vt[1].sizeof_T = nondet_size(); g_vt[1].alignof_T = nondet_size();
   g_blk[0].alloc = nondet_bool(); g_blk[0].for_type = pick_vt(nondet_int()); g_blk[0].s = pick_slot();
   g_blk[1].alloc = nondet_bool(); g_blk[1].for_type = pick_vt(nondet_int()); g_blk[1].s = pick_slot();
   g_blk[2].alloc = false; g_blk[2].for_type = pick_vt(nondet_int()); g_blk[2].s = pick_slot();
@@ -460,6 +492,11 @@ void harness(void)
   bool o_full = other->object != NULL, o_emb = other->object == (void *) other->storage;
   bool same_type = a.vptr == other->vptr;
   (void) a_full; (void) a_emb; (void) o_full; (void) o_emb; (void) same_type;
+#ifdef U_ALLOCATE
+  const struct fvt *T = pick_vt(nondet_int());
+  void *buf = vt_allocate(T, a.storage, function_storage_size);
+  if (buf == (void *) a.storage) VX_REACH("embedded"); else VX_REACH("heap");
+#endif
 #ifdef U_DEFAULT_CTOR
   fb_ctor(&a, &g_vt_empty);
   VX_REACH("constructed");
